@@ -37,15 +37,19 @@ class AckFamily:
             if r < 0.45:
                 k = rng.randint(0, max_retry)
                 rules.append({'match': dict(sel, retry=k, state=sel.get('state', 'created')), 'action': 'ack', 'times': 100})
-        ops = [{'op': 'start', 'mid': 'm1', 'vars': {'pid': 'p1'}}, {'op': 'run'}, {'op': 'snapshot', 'level': 'msgs'}]
+        ops = [{'op': 'start', 'mid': 'm1', 'vars': {'pid': 'p1'}}]
+        two = rng.random() < 0.3
+        if two:
+            ops.append({'op': 'start', 'mid': 'm1', 'vars': {'pid': 'p2'}})      # a second process: clear(pid) and actions must not touch its messages
+        ops += [{'op': 'run'}, {'op': 'snapshot', 'level': 'msgs'}]
         for _ in range(rng.randint(3, 9)):
             k = rng.random()
             if k < 0.12:
                 ops.append({'op': 'msg_redo'})
             elif k < 0.2:
-                ops.append({'op': 'msg_clear', 'pid': rng.choice(['p1', 'p1', 'nosuch'])} if rng.random() < 0.7 else {'op': 'msg_clear'})
+                ops.append({'op': 'msg_clear', 'pid': rng.choice(['p1', 'p1', 'p2', 'nosuch'])} if rng.random() < 0.7 else {'op': 'msg_clear'})
             elif k < 0.35:
-                ops += [{'op': 'act', 'target': {'pid': 'p1', 'kind': 'act', 'state': 'interrupted', 'occ': rng.choice([0, -1])}, 'action': 'next'}, {'op': 'run'}]
+                ops += [{'op': 'act', 'target': {'pid': rng.choice(['p1', 'p2']) if two else 'p1', 'kind': 'act', 'state': 'interrupted', 'occ': rng.choice([0, -1])}, 'action': 'next'}, {'op': 'run'}]
             else:
                 ops += [{'op': 'advance', 'ms': rng.choice([I // 2, I + 1, I + 1, 3 * I, I - 1])}, {'op': 'tick'}, {'op': 'run'}]
             ops.append({'op': 'snapshot', 'level': 'msgs'})
